@@ -243,8 +243,8 @@ Section Entropy.
       assert (Ep : posR (x / sumR m) = true).
       { unfold posR. destruct (Rlt_dec 0 (x / sumR m)) as [|N]; [reflexivity|].
         exfalso; apply N. apply Rdiv_lt_0_compat; lra. }
-      cbv -[Rplus Rminus Rmult Rdiv Ropp Rinv ln is0R posR sumR nth]. rewrite E0.
-      cbv -[Rplus Rminus Rmult Rdiv Ropp Rinv ln is0R posR sumR nth]. rewrite Ep. reflexivity.
+      cbv -[Rplus Rminus Rmult Rdiv Ropp Rinv ln is0R posR ltR sumR nth]. rewrite E0.
+      cbv -[Rplus Rminus Rmult Rdiv Ropp Rinv ln is0R posR ltR sumR nth]. rewrite Ep. reflexivity.
   Qed.
 End Entropy.
 
